@@ -233,10 +233,19 @@ class SubSession:
         # endpoints for which a socket-level failure was injected while a notification was exchanged (this step)
         broke = set()
         for w in self.net.log[self._broke_pos:]:
-            if w.src == 'provider' and w.outcome.startswith('failed:') and w.outcome != 'failed:HTTPReturnCodeError':
+            # (also when the request arrived and only its answer was lost: the real client closes the connection alike)
+            if w.src == 'provider' and w.outcome.startswith(('failed:', 'answer-lost:')) and w.outcome != 'failed:HTTPReturnCodeError':
                 for name, port in CLIENT_PORT.items():
                     if w.dst.endswith(f':{port}'):
                         broke.add(name)
+        # ... and the same for the EndTo endpoints (SubscriptionEnd messages of a Stop go there)
+        broke_end = set()
+        for w in self.net.log[self._broke_pos:]:
+            if w.src == 'provider' and w.outcome.startswith(('failed:', 'answer-lost:')) and w.outcome != 'failed:HTTPReturnCodeError':
+                for name, port in CLIENT_PORT.items():
+                    if w.dst.endswith(f':{port + END_PORT_OFFSET}'):
+                        broke_end.add(name)
+        out['broke_end'] = sorted(broke_end)
         self._broke_pos = len(self.net.log)
         out['broke'] = sorted(broke)
         self.connect_refused = []
@@ -280,7 +289,10 @@ class SubSession:
         port = CLIENT_PORT[rec['c']]
         actions = {'metric': self.defs.Actions.EpisodicMetricReport, 'alert': self.defs.Actions.EpisodicAlertReport}
         ft = evt.FilterType()
-        ft.text = ' '.join(actions[a] for a in sorted(rec['f']))
+        uris = [actions[a] for a in sorted(rec['f'])]
+        sep = rec.get('sep', 'blank')
+        ft.text = {'blank': ' '.join(uris), 'newline': '\n'.join(uris), 'tab': '\t'.join(uris),
+                   'padded': '\n      ' + '\n      '.join(uris) + '\n    '}[sep]
         ft.Dialect = DeviceEventingFilterDialectURI.ACTION
         end_to = f'http://127.0.0.1:{port + END_PORT_OFFSET}/sink/end/{i}' if rec['endTo'] else None
         sub = ConsumerSubscription(self.factory, self.defs.data_model, lambda addr: self.client, self.hosted, ft,
